@@ -10,7 +10,9 @@ L2 (correspondence, every run):
     outside the bounds) against `Model/Membership.lean`'s `fin`;
   * `cs`: `memSpace` (activity, canonical inactive values, forbidden clauses) against
     ConfigSpace's own validation on sampled and mutated configurations;
-  * `fill`: `RandomSearch.ask` against `fillInactive` on the observed ConfigSpace samples.
+  * `fill`: `RandomSearch.ask` against `fillInactive` on the observed ConfigSpace samples;
+  * `regevo`: real `RegularizedEvolution` ask/tell sessions (random phase, then mutations with the
+    observed seeded choices) against `Model/RegEvo.lean`.
 L3 (oracle on the real code): every proposal of every search class (exact Python kind + value)
   goes to Lean's `memSpace`/`checkXInSpace`; every setup/ask/tell must succeed; job parameters
   seen by the run-function of `search()` are checked the same way.
@@ -52,7 +54,7 @@ def gen_cells(ck):
         sweep.append({"design": de, "surrogate": rng.choice(["GP", "DUMMY", "RF"])})
     for k in range(n_cells):
         r = rng.random()
-        if r < 0.72:
+        if k < len(sweep) or r < 0.72:
             search = "CBO"
         elif r < 0.82:
             search = "EDS"
@@ -90,7 +92,7 @@ def gen_cells(ck):
         n_rounds = rng.randint(4, 8) if search != "RegEvo" else rng.randint(6, 12)
         if search == "CBO" and (cell["surrogate"] in ("GP", "HGBRT") or cell["acq"].startswith("MES")):
             n_rounds = min(n_rounds, 5)
-        script = ac.gen_script(rng, n_rounds, 4, again_p=rng.choice([0.0, 0.0, 0.25]))
+        script = ac.gen_script(rng, n_rounds, 4, again_p=rng.choice([0.0, 0.0, 0.25]), moo=rng.random() < 0.12)
         mode = "search" if (search != "RegEvo" and rng.random() < 0.12) else "asktell"
         cells.append((cell, spec, script, mode))
     return cells
@@ -102,8 +104,18 @@ def gen_cells(ck):
 _worker = ac.run_cell
 
 
-def _run_cells(ck, cells):
-    return ac.run_cells(ck, cells)
+def _run_cells(ck, cells, n_corpus=0):
+    # a slice of the option sweep and one cell of every other search class run in-process so that
+    # the line-coverage probe sees the optimizer, the samplers and the search classes at work
+    # (sweep layout of gen_cells: 8 surrogates, then pairs for 10 acquisitions, 7 strategies, 6 designs)
+    local = [n_corpus + k for k in list(range(0, 8)) + list(range(8, 54, 2))]
+    seen = set()
+    for i, c in enumerate(cells):
+        cls = c[0]["search"]
+        if i >= n_corpus and cls != "CBO" and (cls, c[3]) not in seen:
+            seen.add((cls, c[3]))
+            local.append(i)
+    return ac.run_cells(ck, cells, inprocess=local)
 
 
 # --------------------------------------------------------------------------- oracle
@@ -343,7 +355,8 @@ def _cs_cases(ck, d):
             vals = ac._values_of(by[names[j]])
             y[j] = rng.choice(vals)
             if by[names[j]]["kind"] == "float":
-                y[j] = float(y[j])
+                # ConfigSpace's view of a configuration is the one with floats rounded to 13 digits
+                y[j] = float(np.round(float(y[j]), 13))
             cfgs.append(y)
             kinds.append("mutant")
         rep = d.ask({"op": "mem", "decl": decl, "xs": [ac.enc_cfg(x) for x in cfgs]})
@@ -419,6 +432,128 @@ def _fill_cases(ck, d):
             real = ac.enc_cfg([x[n] for n in names])
             if m != real:
                 ck.mismatch(case, {"impl": real, "model": m})
+
+
+def _regevo_cases(ck, d):
+    """Real RegularizedEvolution sessions replayed through `Model/RegEvo.lean`.  The seeded choices
+    are observed from outside: the `random_state` handed to the constructor is a recording
+    subclass of `np.random.RandomState`; `Hyperparameter.rvs` and
+    `ConfigurationSpace.sample_configuration` are wrapped (class attributes) for the session."""
+    import shutil
+    import tempfile
+
+    import ConfigSpace as CS
+    from ConfigSpace.hyperparameters.hyperparameter import Hyperparameter
+
+    from deephyper.evaluator import Evaluator
+    from deephyper.hpo import RegularizedEvolution
+
+    rng = ck.rng
+
+    class SpyRS(np.random.RandomState):
+        def __init__(self, seed):
+            super().__init__(seed)
+            self.log = []
+
+        def choice(self, a, size=None, replace=True, p=None):
+            out = super().choice(a, size=size, replace=replace, p=p)
+            self.log.append(("choice", out))
+            return out
+
+    for sidx in range(ck.pick(14, 120)):
+        spec = ac.gen_spec(rng, constrained=rng.random() < 0.75)
+        problem = ac.build_problem(spec)
+        names = list(problem.hyperparameter_names)
+        decl = ac.decl_of(spec, problem, None)
+        pop_size = rng.randint(2, 5)
+        sample_size = rng.randint(1, pop_size - 1)
+        rs = SpyRS(rng.randint(0, 10**6))
+        events = rs.log
+        orig_rvs, orig_sample = Hyperparameter.rvs, CS.ConfigurationSpace.sample_configuration
+
+        def spy_rvs(self_, size=None, *, random_state=None):
+            out = orig_rvs(self_, size, random_state=random_state)
+            events.append(("rvs", self_.name, out))
+            return out
+
+        def spy_sample(self_, size=None):
+            out = orig_sample(self_, size)
+            events.append(("sample", out if isinstance(out, list) else [out]))
+            return out
+
+        tmp = tempfile.mkdtemp(prefix="g5_")
+        ops, rnd = [], []
+        case = {"kind": "regevo", "spec": spec, "population_size": pop_size, "sample_size": sample_size}
+        error = None
+        try:
+            Hyperparameter.rvs = spy_rvs
+            CS.ConfigurationSpace.sample_configuration = spy_sample
+            search = RegularizedEvolution(problem, Evaluator.create(ac._run_dummy, method="serial"), random_state=rs,
+                                          log_dir=tmp, population_size=pop_size, sample_size=sample_size)
+            by = {h["name"]: h for h in spec["hps"]}
+
+            def canon(nm):
+                h = by[nm]
+                return h["lo"] if h["kind"] in ("int", "float") else h["choices"][0]
+
+            def filled(conf):
+                dct = dict(conf)
+                return [ac.plain(dct[nm]) if nm in dct else canon(nm) for nm in names]
+
+            for step in range(rng.randint(5, 10)):
+                n = rng.randint(1, 3)
+                del events[:]
+                X = search.ask(n)
+                evs = list(events)
+                op = {"op": "ask", "n": n, "X": [ac.enc_cfg([x[nm] for nm in names]) for x in X], "fresh": [], "children": []}
+                if evs and evs[0][0] == "sample" and not any(e[0] == "choice" for e in evs):
+                    op["fresh"] = [ac.enc_cfg(filled(c)) for e in evs if e[0] == "sample" for c in e[1]]
+                else:
+                    cur = None
+                    for e in evs:
+                        if e[0] == "choice" and isinstance(e[1], np.ndarray):
+                            cur = {"idxs": [int(i) for i in e[1]], "attempts": [], "fresh": None}
+                            op["children"].append(cur)
+                        elif e[0] == "choice":
+                            cur["attempts"].append([str(e[1]), None])
+                        elif e[0] == "rvs":
+                            v = ac.plain(e[2])
+                            cur["attempts"][-1][1] = ac.enc(v)
+                            if isinstance(v, float):
+                                rnd.append([rat(v), rat(float(np.round(v, 13)))])
+                        elif e[0] == "sample":
+                            cur["fresh"] = ac.enc_cfg(filled(e[1][0]))
+                ops.append(op)
+                results = []
+                for x in X:
+                    obj = rng.choice([round(rng.uniform(-2, 2), 2), float(rng.randint(0, 3)), "F_crash"])
+                    results.append((x, obj))
+                search.tell([ac.Job(x, o) for x, o in results])
+                ops.append({"op": "tell", "results": [[ac.enc_cfg([x[nm] for nm in names]), None if isinstance(o, str) else rat(o)]
+                                                       for x, o in results]})
+        except Exception as e:
+            error = e
+        finally:
+            Hyperparameter.rvs = orig_rvs
+            CS.ConfigurationSpace.sample_configuration = orig_sample
+            shutil.rmtree(tmp, ignore_errors=True)
+        ck.case(case, nontrivial=any(o.get("children") for o in ops))
+        if error is not None:
+            ck.fail(f"{PROP}|raises:{type(error).__name__}|ask|{ac.exc_site(error)}|search=RegEvo",
+                    f"RegularizedEvolution raised {type(error).__name__}: {str(error)[:120]}",
+                    {"cell": {"search": "RegEvo", "seed": 0, "n_initial": 1, "n_points": 1, "population_size": pop_size,
+                              "sample_size": sample_size}, "spec": spec,
+                     "script": [{"n": 2, "objs": [1.0, 0.5], "tell": [True]} for _ in range(12)], "mode": "asktell"}, repr(error))
+            continue
+        rep = d.ask({"op": "regevo", "decl": decl, "popSize": pop_size, "sampleSize": sample_size, "rnd": rnd, "ops": ops})
+        for ph in rep["phases"]:
+            ck.count("regevo:" + ph)
+        n_att = sum(len(c["attempts"]) for o in ops for c in o.get("children", []))
+        n_child = sum(len(o.get("children", [])) for o in ops)
+        ck.count("regevo:children", n_child)
+        ck.count("regevo:redrawn-mutations", n_att - n_child)
+        if rep["mismatch"] is not None:
+            ck.mismatch(case, {"model_vs_impl": rep["mismatch"], "replayed": rep["replayed"]})
 
 
 # --------------------------------------------------------------------------- run
@@ -507,7 +642,7 @@ def run(ck):
     cells = _load_corpus()
     n_corpus = len(cells)
     cells += gen_cells(ck)
-    recs = _run_cells(ck, cells)
+    recs = _run_cells(ck, cells, n_corpus)
     if os.environ.get("VERIF_TIMING"):
         for secs, c in sorted(((r.get("secs", 0), c[0]) for r, c in zip(recs, cells)), key=lambda p: -p[0])[:12]:
             print("timing", secs, c)
@@ -516,6 +651,7 @@ def run(ck):
         _fin_cases(ck, d)
         _cs_cases(ck, d)
         _fill_cases(ck, d)
+        _regevo_cases(ck, d)
     ck.count("corpus_cases", n_corpus)
     # fingerprints: minimal option values / input class, from shrunk cases
     for key, req, shrunk, explained in ac.fingerprint_groups(prov, _shrink_job, max_workers=ck.pick(8, 12)):
